@@ -1,13 +1,1825 @@
-//! C02 — stub (not built yet; not registered in MANIFEST.json).
-use super::*;
+//! C02 — written files are valid packages that an independent reader decodes to the model.
+//!
+//! Every file the writer produces is (1) validated by the rules of `pytools/ooxml_decode.py`
+//! (zip, well-formedness, content types, relationships, uniqueness, worksheet child order,
+//! row/cell order and range, every index inside its table) and (2) decoded by the same
+//! stand-alone Python reader; the decoded view must equal the model of the workbook.
+//!
+//! Legs:
+//!  * generated (proptest, one `Case` type, several strata): a composite workbook spec made
+//!    of the existing spec families — cells+formulas (`gen::wb`), styles on cells / rows /
+//!    columns (`gen::style`), annotations (`gen::annot`: sheet states, sheets removed before
+//!    saving, merges, defined names, external+internal hyperlinks, comments, validations,
+//!    conditional formats with dxf, auto filter, views, page setup, protection) plus what
+//!    only C02 needs: tables, sheets renamed before saving, a macro payload.
+//!  * corpus (hand-written loop): every readable file of tests/test_files loaded eagerly and
+//!    re-saved with the standard and the light writer.
+//!
+//! Projection compared (nothing else): sheet list (name, state, order); per sheet the set of
+//! non-blank cells with kind, value (text char for char, numbers by IEEE bits), formula text,
+//! rich-text run texts; hyperlinks (cell -> external target | location); merged ranges;
+//! defined names (name, scope, text through a reference-address parser); comments (cell ->
+//! author, text); tables (name -> range, column names); presence and bytes of the macro part.
+use super::Prop;
+use crate::engine::*;
+use crate::gen::annot::{self, col_name, AnnotSheet, AnnotWb, Feat, PageSpec, RectSpec};
+use crate::gen::style::{self, StyleSpec};
+use crate::gen::text::*;
+use crate::gen::wb::*;
+use crate::props::c01::{load, save, text_class};
+use crate::props::c06::canon_name_text;
+use crate::pyworker::{self, Decoded, RuleViolation};
+use proptest::prelude::*;
+use rayon::prelude::*;
+use serde::{Deserialize, Serialize};
+use serde_json::{json, Value};
+use std::collections::{BTreeMap, BTreeSet, HashSet};
+use std::sync::OnceLock;
+use umya_spreadsheet::{CellRawValue, Spreadsheet, Table, TableColumn, TableStyleInfo};
 
 pub fn prop() -> Prop {
     Prop {
         id: "C02",
-        describe: |_| {},
-        subs: no_subs,
-        extra: no_extra,
-        replay_extra: no_replay_extra,
-        watchdog_s: (900, 7200),
+        describe,
+        subs,
+        extra,
+        replay_extra,
+        watchdog_s: (3600, 28800),
+    }
+}
+
+fn describe(ctx: &Ctx) {
+    ctx.rule("generated: composite workbook specs (1..6 sheets with states, some removed or renamed before saving; cells of all kinds with formulas at boundary/random positions; styles on cells/rows/columns; merges, defined names (workbook and sheet scope), external+internal hyperlinks, comments, data validations, conditional formats with dxf, auto filter, views, page setup incl. printer settings, sheet/workbook protection, tables, macro payload on/off; standard and light writer) in strata cells / annot / rels (external links + comments + tables + printer settings on several sheets) / combined / dirty; corpus: every readable file of tests/test_files loaded eagerly and re-saved (standard + light). Oracle 1: the Python validator reports no rule violation and the count attributes of sharedStrings/styles agree with their tables. Oracle 2: the Python decode of the written bytes equals the model (sheet list, cells kind/value/formula, hyperlinks, merged ranges, defined names, comments, tables, macro part). Non-trivial = the saved package has >= 2 sheets, or >= 1 relationship-bearing object (external hyperlink, comment, table, printer settings, macro part), or a non-default style; distinct by full case (corpus: file x writer)");
+    ctx.assume("model of a generated workbook = its spec; the spec is first compared with what the public getters show before saving (a mismatch is a generator problem: Discard). Defined names are taken from the getters (name, owner sheet, get_address) because a sheet renamed before saving leaves their text as it was");
+    ctx.assume("model of a corpus file = the workbook as the library loaded it (public getters); what the reader itself loses or alters against the independent decode of the ORIGINAL file is C03's subject and is only counted here (class corpus/reader-differs-from-original)");
+    ctx.assume("a text cell holding the empty string and a blank cell are not distinguished; -0 and 0 are not distinguished; blank cells (no value, no formula) are not compared");
+    ctx.assume("an ECMA-376 reader decodes _xHHHH_ in string items (ST_Xstring) and may strip edge blanks of a <t>/<v> that has no xml:space=\"preserve\"; both are modelled by the decoder (value decoded; ws_ambiguous flag = finding when the model text has edge blanks)");
+    ctx.assume("sheet names that differ only in case, illegal sheet names, duplicate table names / column names and defined names that are not identifiers are not generated (the API accepts them, a spreadsheet application does not: precondition of a 'workbook')");
+    ctx.assume("comments and tables are compared although the statement's second sentence does not list them: they are the relationship-bearing objects whose numbering the first sentence is about");
+}
+
+// ---------------------------------------------------------------------------------------
+// case
+
+#[derive(Debug, Clone, Serialize, Deserialize, PartialEq)]
+pub struct TableSpec {
+    pub name: String,
+    pub rect: RectSpec,
+    /// one per column of `rect`
+    pub columns: Vec<String>,
+    pub style_info: bool,
+    /// write the column names into the header row as text cells
+    pub header_cells: bool,
+}
+
+#[derive(Debug, Clone, Serialize, Deserialize, PartialEq)]
+pub enum StyleTarget {
+    Cell(u32, u32),
+    Row(u32),
+    Col(u32),
+}
+
+/// What C02 adds to one sheet of the annotation spec (same index as `annot.sheets`).
+#[derive(Debug, Clone, Serialize, Deserialize, PartialEq, Default)]
+pub struct SheetExtra {
+    pub cells: Vec<CellSpec>,
+    /// (target, raw style index mapped monotonically onto `Case::styles`)
+    pub styled: Vec<(StyleTarget, u16)>,
+    pub tables: Vec<TableSpec>,
+    /// `Spreadsheet::set_sheet_name` just before saving
+    pub rename: Option<String>,
+}
+
+#[derive(Debug, Clone, Serialize, Deserialize)]
+pub struct Case {
+    pub annot: AnnotWb,
+    pub extra: Vec<SheetExtra>,
+    pub styles: Vec<StyleSpec>,
+    pub macros: Option<Vec<u8>>,
+    pub light: bool,
+    /// labels of what the generator removed from this case to steer around open known
+    /// findings (evidence only: the check does not depend on it)
+    #[serde(default)]
+    pub steered: Vec<String>,
+}
+
+impl Case {
+    fn extra_of(&self, i: usize) -> SheetExtra {
+        self.extra.get(i).cloned().unwrap_or_default()
+    }
+    /// name of kept sheet `i` (index into annot.sheets) when the workbook is saved
+    fn final_name(&self, i: usize) -> String {
+        match self.extra.get(i).and_then(|e| e.rename.clone()) {
+            Some(n) => n,
+            None => self.annot.sheets[i].name.clone(),
+        }
+    }
+}
+
+// ---------------------------------------------------------------------------------------
+// builder (public API only)
+
+pub fn build(case: &Case) -> Spreadsheet {
+    let mut book = annot::build(&case.annot);
+    let styles: Vec<umya_spreadsheet::Style> = case.styles.iter().map(style::apply).collect();
+    let kept = case.annot.kept();
+    for (k, &i) in kept.iter().enumerate() {
+        let ex = case.extra_of(i);
+        let ws = book.get_sheet_mut(&k).unwrap();
+        for t in &ex.tables {
+            if t.header_cells {
+                for (j, name) in t.columns.iter().enumerate() {
+                    ws.get_cell_mut((t.rect.c1 + j as u32, t.rect.r1)).set_value_string(name.clone());
+                }
+            }
+        }
+        for c in &ex.cells {
+            let cell = ws.get_cell_mut((c.col, c.row));
+            apply_value(cell, &c.value);
+            if let Some(f) = &c.formula {
+                cell.set_formula(f.clone());
+            }
+        }
+        if !styles.is_empty() {
+            for (target, raw) in &ex.styled {
+                let st = styles[pick_idx(*raw, styles.len())].clone();
+                match target {
+                    StyleTarget::Cell(c, r) => {
+                        ws.get_cell_mut((*c, *r)).set_style(st);
+                    }
+                    StyleTarget::Row(r) => {
+                        ws.get_row_dimension_mut(r).set_style(st);
+                    }
+                    StyleTarget::Col(c) => {
+                        ws.get_column_dimension_by_number_mut(c).set_style(st);
+                    }
+                }
+            }
+        }
+        for t in &ex.tables {
+            let mut table = Table::new(&t.name, ((t.rect.c1, t.rect.r1), (t.rect.c2, t.rect.r2)));
+            for c in &t.columns {
+                table.add_column(TableColumn::new(c));
+            }
+            if t.style_info {
+                table.set_style_info(Some(TableStyleInfo::new("TableStyleMedium2", false, false, true, false)));
+            }
+            ws.add_table(table);
+        }
+    }
+    for (k, &i) in kept.iter().enumerate() {
+        if let Some(n) = case.extra.get(i).and_then(|e| e.rename.clone()) {
+            book.set_sheet_name(k, n).expect("generator produces distinct names");
+        }
+    }
+    if let Some(m) = &case.macros {
+        book.set_macros_code(m.clone());
+    }
+    book
+}
+
+// ---------------------------------------------------------------------------------------
+// model
+
+#[derive(Debug, Clone, PartialEq, Default)]
+pub struct MCell {
+    /// text | rich | number | bool | error | blank (blank only with a formula)
+    pub kind: String,
+    /// text kinds: the text; bool: TRUE/FALSE; error: the literal; number: empty
+    pub value: String,
+    pub bits: Option<u64>,
+    pub formula: String,
+    pub runs: Vec<String>,
+    /// decoded side only: edge blanks not protected by xml:space
+    pub ambiguous: bool,
+    /// decoded side only: shared-formula expansion left the grid (do not compare the formula)
+    pub f_uncertain: bool,
+    /// decoded side only: the formula text was derived from a shared-formula master
+    pub shared_child: bool,
+}
+
+#[derive(Debug, Clone, PartialEq, Default)]
+pub struct MLink {
+    pub external: bool,
+    pub target: String,
+}
+
+#[derive(Debug, Clone, PartialEq, Default)]
+pub struct MSheet {
+    pub name: String,
+    pub state: String,
+    /// false for chartsheets & co (nothing below is compared then)
+    pub worksheet: bool,
+    pub cells: BTreeMap<(u32, u32), MCell>,
+    pub links: BTreeMap<String, MLink>,
+    pub merges: BTreeSet<String>,
+    pub comments: BTreeMap<String, (String, String)>,
+    pub tables: BTreeMap<String, (String, Vec<String>)>,
+}
+
+#[derive(Debug, Clone, PartialEq, Eq, PartialOrd, Ord)]
+pub struct MName {
+    pub name: String,
+    pub scope: Option<u32>,
+    pub text: String,
+}
+
+#[derive(Debug, Clone, PartialEq, Default)]
+pub struct Model {
+    pub sheets: Vec<MSheet>,
+    pub names: Vec<MName>,
+}
+
+fn a1(col: u32, row: u32) -> String {
+    format!("{}{}", col_name(col), row)
+}
+
+/// `A1:B2` / `A1` / `$A$1:$B$2` -> upper-case, no `$`, single cells as `A1:A1`
+fn canon_range(s: &str) -> String {
+    let t: String = s.chars().filter(|c| *c != '$').collect::<String>().to_uppercase();
+    match t.split_once(':') {
+        Some((a, b)) => format!("{}:{}", a, b),
+        None => format!("{}:{}", t, t),
+    }
+}
+
+fn cell_is_void(c: &MCell) -> bool {
+    c.formula.is_empty() && (c.kind == "blank" || ((c.kind == "text" || c.kind == "rich") && c.value.is_empty()))
+}
+
+fn mcell_of_spec(c: &CellSpec) -> MCell {
+    let mut m = MCell {
+        kind: c.value.kind().to_string(),
+        formula: c.formula.clone().unwrap_or_default(),
+        ..MCell::default()
+    };
+    match &c.value {
+        ValueSpec::Blank => {}
+        ValueSpec::Text(s) => m.value = s.clone(),
+        ValueSpec::Rich(runs) => {
+            m.value = runs.iter().map(|r| r.text.as_str()).collect();
+            m.runs = runs.iter().map(|r| r.text.clone()).collect();
+        }
+        ValueSpec::Number(n) => m.bits = Some(n.0.to_bits()),
+        ValueSpec::Bool(b) => m.value = if *b { "TRUE" } else { "FALSE" }.to_string(),
+        ValueSpec::Error(i) => m.value = ERRORS[*i as usize % ERRORS.len()].to_string(),
+    }
+    m
+}
+
+pub fn model_of_spec(case: &Case, book: &Spreadsheet) -> Model {
+    let mut m = Model::default();
+    for &i in &case.annot.kept() {
+        let s = &case.annot.sheets[i];
+        let ex = case.extra_of(i);
+        let mut ms = MSheet {
+            name: case.final_name(i),
+            state: match s.state {
+                2 => "hidden",
+                3 => "veryHidden",
+                _ => "visible",
+            }
+            .to_string(),
+            worksheet: true,
+            ..MSheet::default()
+        };
+        for t in &ex.tables {
+            if t.header_cells {
+                for (j, name) in t.columns.iter().enumerate() {
+                    ms.cells.insert(
+                        (t.rect.r1, t.rect.c1 + j as u32),
+                        MCell {
+                            kind: "text".into(),
+                            value: name.clone(),
+                            ..MCell::default()
+                        },
+                    );
+                }
+            }
+            ms.tables.insert(t.name.clone(), (canon_range(&t.rect.a1_range()), t.columns.clone()));
+        }
+        for c in &ex.cells {
+            ms.cells.insert((c.row, c.col), mcell_of_spec(c));
+        }
+        ms.cells.retain(|_, c| !cell_is_void(c));
+        for l in &s.links {
+            ms.links.insert(
+                a1(l.col, l.row),
+                MLink {
+                    external: !l.internal,
+                    target: l.target.clone(),
+                },
+            );
+        }
+        for r in &s.merges {
+            ms.merges.insert(canon_range(&r.a1_range()));
+        }
+        for c in &s.comments {
+            ms.comments.insert(a1(c.col, c.row), (c.author.clone(), c.runs.concat()));
+        }
+        m.sheets.push(ms);
+    }
+    m.names = names_of_book(book);
+    m
+}
+
+fn names_of_book(book: &Spreadsheet) -> Vec<MName> {
+    let mut v = Vec::new();
+    for d in book.get_defined_names() {
+        v.push(MName {
+            name: d.get_name().to_string(),
+            scope: if d.has_local_sheet_id() { Some(*d.get_local_sheet_id()) } else { None },
+            text: canon_name_text(&d.get_address()),
+        });
+    }
+    for (i, ws) in book.get_sheet_collection_no_check().iter().enumerate() {
+        for d in ws.get_defined_names() {
+            v.push(MName {
+                name: d.get_name().to_string(),
+                // a sheet-scoped name belongs to the sheet that holds it
+                scope: if d.has_local_sheet_id() { Some(i as u32) } else { None },
+                text: canon_name_text(&d.get_address()),
+            });
+        }
+    }
+    v.sort();
+    v
+}
+
+pub fn model_of_book(book: &Spreadsheet) -> Model {
+    let mut m = Model::default();
+    for ws in book.get_sheet_collection_no_check() {
+        let mut ms = MSheet {
+            name: ws.get_name().to_string(),
+            state: annot::state_name(ws.get_state()).to_string(),
+            worksheet: true,
+            ..MSheet::default()
+        };
+        for c in ws.get_cell_collection() {
+            let co = c.get_coordinate();
+            let (col, row) = (*co.get_col_num(), *co.get_row_num());
+            let raw = c.get_raw_value();
+            let mut mc = MCell {
+                formula: c.get_formula().to_string(),
+                ..MCell::default()
+            };
+            match raw {
+                CellRawValue::String(_) | CellRawValue::Lazy(_) => {
+                    mc.kind = "text".into();
+                    mc.value = c.get_value().to_string();
+                }
+                CellRawValue::RichText(rt) => {
+                    mc.kind = "rich".into();
+                    mc.value = c.get_value().to_string();
+                    mc.runs = rt.get_rich_text_elements().iter().map(|e| e.get_text().to_string()).collect();
+                }
+                CellRawValue::Numeric(n) => {
+                    mc.kind = "number".into();
+                    mc.bits = Some(n.to_bits());
+                }
+                CellRawValue::Bool(_) => {
+                    mc.kind = "bool".into();
+                    mc.value = c.get_value().to_string();
+                }
+                CellRawValue::Error(_) => {
+                    mc.kind = "error".into();
+                    mc.value = c.get_value().to_string();
+                }
+                CellRawValue::Empty => mc.kind = "blank".into(),
+            }
+            if !cell_is_void(&mc) {
+                ms.cells.insert((row, col), mc);
+            }
+            if let Some(h) = c.get_hyperlink() {
+                ms.links.insert(
+                    a1(col, row),
+                    MLink {
+                        external: !*h.get_location(),
+                        target: h.get_url().to_string(),
+                    },
+                );
+            }
+        }
+        for r in ws.get_merge_cells() {
+            ms.merges.insert(canon_range(&r.get_range()));
+        }
+        for c in ws.get_comments() {
+            let co = c.get_coordinate();
+            let text: String = c.get_text().get_rich_text_elements().iter().map(|e| e.get_text().to_string()).collect();
+            let text = if text.is_empty() { c.get_text().get_text().to_string() } else { text };
+            ms.comments.insert(a1(*co.get_col_num(), *co.get_row_num()), (c.get_author().to_string(), text));
+        }
+        for t in ws.get_tables() {
+            let (a, b) = t.get_area();
+            let range = format!("{}:{}", a1(*a.get_col_num(), *a.get_row_num()), a1(*b.get_col_num(), *b.get_row_num()));
+            ms.tables.insert(t.get_name().to_string(), (range, t.get_columns().iter().map(|c| c.get_name().to_string()).collect()));
+        }
+        m.sheets.push(ms);
+    }
+    m.names = names_of_book(book);
+    m
+}
+
+pub fn model_of_decoded(d: &Decoded) -> Model {
+    let mut m = Model::default();
+    for s in &d.sheets {
+        let mut ms = MSheet {
+            name: s.name.clone().unwrap_or_default(),
+            state: if s.state.is_empty() { "visible".to_string() } else { s.state.clone() },
+            worksheet: s.kind == "worksheet",
+            ..MSheet::default()
+        };
+        for c in &s.cells {
+            let mut mc = MCell {
+                kind: c.kind.clone(),
+                formula: c.formula.clone().unwrap_or_default(),
+                // <v> is a simple-type element: the schema gives a writer no xml:space to put
+                // there, so edge blanks of a cached formula result are not "unprotected"
+                ambiguous: c.ws_ambiguous && c.t.as_deref() != Some("str"),
+                f_uncertain: c.f_uncertain,
+                shared_child: c.f_type.as_deref() == Some("shared") && !c.f_master,
+                ..MCell::default()
+            };
+            match c.kind.as_str() {
+                "number" => mc.bits = c.bits.as_ref().and_then(|b| u64::from_str_radix(b, 16).ok()),
+                "rich" => {
+                    mc.value = c.value.clone();
+                    mc.runs = c.runs.as_ref().map(|r| r.iter().map(|x| x.text.clone()).collect()).unwrap_or_default();
+                }
+                _ => mc.value = c.value.clone(),
+            }
+            if !cell_is_void(&mc) {
+                ms.cells.insert((c.row, c.col), mc);
+            }
+        }
+        for h in &s.hyperlinks {
+            let Some(r) = &h.r else { continue };
+            let key = r.replace('$', "").to_uppercase();
+            match (&h.rid, &h.location) {
+                (Some(_), _) => {
+                    ms.links.insert(
+                        key,
+                        MLink {
+                            external: true,
+                            target: h.target.clone().unwrap_or_else(|| "<unresolved r:id>".to_string()),
+                        },
+                    );
+                }
+                (None, Some(l)) => {
+                    ms.links.insert(
+                        key,
+                        MLink {
+                            external: false,
+                            target: l.clone(),
+                        },
+                    );
+                }
+                (None, None) => {
+                    ms.links.insert(key, MLink { external: false, target: String::new() });
+                }
+            }
+        }
+        for r in s.merged.iter().flatten() {
+            ms.merges.insert(canon_range(r));
+        }
+        for c in &s.comments {
+            let Some(r) = &c.r else { continue };
+            ms.comments.insert(r.to_uppercase(), (c.author.clone().unwrap_or_else(|| "<no author>".to_string()), c.text.clone()));
+        }
+        for t in &s.tables {
+            ms.tables.insert(
+                t.name.clone().unwrap_or_default(),
+                // tableColumn/@name is an ST_Xstring: an ECMA-376 reader sees the decoded form
+                (canon_range(t.r.as_deref().unwrap_or("")), t.columns_decoded.clone()),
+            );
+        }
+        m.sheets.push(ms);
+    }
+    for n in &d.defined_names {
+        m.names.push(MName {
+            name: n.name.clone().unwrap_or_default(),
+            scope: n.local_sheet_id,
+            text: canon_name_text(&n.text),
+        });
+    }
+    m.names.sort();
+    m
+}
+
+// ---------------------------------------------------------------------------------------
+// discrepancies
+
+#[derive(Debug, Clone, PartialEq)]
+pub struct Disc {
+    pub key: String,
+    pub detail: String,
+}
+
+fn disc(out: &mut Vec<Disc>, key: impl Into<String>, detail: impl Into<String>) {
+    out.push(Disc { key: key.into(), detail: detail.into() });
+}
+
+/// Input feature class of a model cell (first half of the finding key).
+pub fn cell_feature(c: &MCell) -> String {
+    let base = match c.kind.as_str() {
+        "text" => format!("text:{}", text_class(&c.value)),
+        "rich" => format!("rich:{}", text_class(&c.value)),
+        k => k.to_string(),
+    };
+    if c.formula.is_empty() {
+        base
+    } else {
+        format!("formula+{}", base)
+    }
+}
+
+fn xstring_decode(s: &str) -> String {
+    crate::gen::xlsxgen::xstring_decode(s)
+}
+
+fn is_edge_blank(c: char) -> bool {
+    matches!(c, ' ' | '\t' | '\r' | '\n')
+}
+
+fn has_xml_edge_blank(s: &str) -> bool {
+    s.starts_with(is_edge_blank) || s.ends_with(is_edge_blank)
+}
+
+fn diff_cell(at: &str, e: &MCell, g: &MCell, out: &mut Vec<Disc>) {
+    let f = cell_feature(e);
+    let e_text = e.kind == "text" || e.kind == "rich";
+    let g_text = g.kind == "text" || g.kind == "rich";
+    // an empty text and a blank are one thing
+    let ek = if e_text && e.value.is_empty() { "blank" } else { e.kind.as_str() };
+    let gk = if g_text && g.value.is_empty() { "blank" } else { g.kind.as_str() };
+    if ek != gk {
+        disc(out, format!("{}/kind:{}->{}", f, ek, gk), format!("{}: model {} {:?}, decoded {} {:?}", at, ek, truncate(&e.value, 80), gk, truncate(&g.value, 80)));
+    } else {
+        match ek {
+            "text" | "rich" => {
+                if e.value != g.value {
+                    if e.value.contains("_x") && xstring_decode(&e.value) == g.value {
+                        // a feature class of its own, whatever else the text contains
+                        let fx = format!("{}{}:escape-lookalike", if e.formula.is_empty() { "" } else { "formula+" }, ek);
+                        disc(out, format!("{}/xstring-lookalike-decoded", fx), format!("{}: model text {:?} is written literally; an ECMA-376 reader decodes _xHHHH_ and sees {:?}", at, truncate(&e.value, 120), truncate(&g.value, 120)));
+                        return;
+                    }
+                    let mode = if g.value == e.value.replace("\r\n", "\n").replace('\r', "\n") {
+                        "cr-becomes-lf"
+                    } else if g.value == e.value.trim_matches(is_edge_blank) {
+                        "value-trimmed"
+                    } else {
+                        "value"
+                    };
+                    disc(out, format!("{}/{}", f, mode), format!("{}: model text {:?}, an ECMA-376 reader sees {:?}", at, truncate(&e.value, 120), truncate(&g.value, 120)));
+                } else if g.ambiguous && has_xml_edge_blank(&e.value) {
+                    disc(out, format!("{}/edge-blank-without-xml-space", f), format!("{}: text {:?} is written without xml:space=\"preserve\"; readers may strip its edge blanks", at, truncate(&e.value, 120)));
+                } else if ek == "rich" && e.runs != g.runs {
+                    if g.ambiguous && e.runs.iter().any(|r| has_xml_edge_blank(r)) {
+                        disc(out, format!("{}/edge-blank-without-xml-space", f), format!("{}: runs {:?}: a run with edge blanks is written without xml:space=\"preserve\"", at, e.runs));
+                    } else {
+                        disc(out, format!("{}/runs", f), format!("{}: runs {:?}, decoded {:?}", at, e.runs, g.runs));
+                    }
+                } else if ek == "rich" && g.ambiguous && e.runs.iter().any(|r| has_xml_edge_blank(r)) {
+                    disc(out, format!("{}/edge-blank-without-xml-space", f), format!("{}: runs {:?}: a run with edge blanks is written without xml:space=\"preserve\"", at, e.runs));
+                }
+            }
+            "number" => {
+                let (a, b) = (e.bits.map(f64::from_bits), g.bits.map(f64::from_bits));
+                let same = match (a, b) {
+                    (Some(a), Some(b)) => a.to_bits() == b.to_bits() || (a == 0.0 && b == 0.0),
+                    _ => false,
+                };
+                if !same {
+                    disc(out, format!("{}/number-bits", f), format!("{}: model {:?}, decoded {:?}", at, a, b));
+                }
+            }
+            "bool" | "error" => {
+                if e.value != g.value {
+                    disc(out, format!("{}/value", f), format!("{}: model {} {:?}, decoded {:?}", at, ek, e.value, g.value));
+                }
+            }
+            _ => {}
+        }
+    }
+    if !g.f_uncertain {
+        let ef = e.formula.trim_matches(is_edge_blank);
+        let gf = g.formula.trim_matches(is_edge_blank);
+        // a shared-formula child has no text of its own in the file: the library derives it
+        // from the master with its tokenizer (decorative blanks are not kept), the decoder by
+        // moving the references inside the master's text; the blanks carry no meaning
+        let same = ef == gf || (g.shared_child && strip_formula_blanks(ef) == strip_formula_blanks(gf));
+        if !same {
+            let mode = if gf.is_empty() {
+                "formula-missing"
+            } else if ef.is_empty() {
+                "formula-phantom"
+            } else {
+                "formula-text"
+            };
+            if ef.contains('\r') && gf == ef.replace("\r\n", "\n").replace('\r', "\n") {
+                disc(out, "formula:cr/cr-becomes-lf", format!("{}: model formula {:?}, an XML reader sees {:?}", at, truncate(ef, 120), truncate(gf, 120)));
+            } else {
+                disc(out, format!("{}/{}", f, mode), format!("{}: model formula {:?}, decoded {:?}", at, truncate(ef, 120), truncate(gf, 120)));
+            }
+        }
+    }
+}
+
+/// Blanks outside string literals and quoted sheet names removed.
+fn strip_formula_blanks(f: &str) -> String {
+    let mut out = String::new();
+    let mut q: Option<char> = None;
+    for c in f.chars() {
+        match q {
+            Some(x) => {
+                out.push(c);
+                if c == x {
+                    q = None;
+                }
+            }
+            None => {
+                if c == '"' || c == '\'' {
+                    q = Some(c);
+                    out.push(c);
+                } else if c != ' ' {
+                    out.push(c);
+                }
+            }
+        }
+    }
+    out
+}
+
+fn special_class(s: &str) -> &'static str {
+    if s.chars().any(|c| matches!(c, '\n' | '\r' | '\t')) {
+        ":linebreak"
+    } else if s.chars().any(|c| (c as u32) < 0x20) {
+        ":c0-control"
+    } else if needs_xml_escape(s) {
+        ":xml-special"
+    } else if s.contains("_x") {
+        ":escape-lookalike"
+    } else if has_xml_edge_blank(s) {
+        ":edge-blank"
+    } else {
+        ""
+    }
+}
+
+/// `exp` = the model, `got` = the independent decode of the written bytes.
+pub fn diff(exp: &Model, got: &Model) -> Vec<Disc> {
+    let mut out = Vec::new();
+    if exp.sheets.len() != got.sheets.len() {
+        disc(&mut out, "sheets/count", format!("model has {} sheets {:?}, the file has {} {:?}", exp.sheets.len(), exp.sheets.iter().map(|s| &s.name).collect::<Vec<_>>(), got.sheets.len(), got.sheets.iter().map(|s| &s.name).collect::<Vec<_>>()));
+        return out;
+    }
+    for (i, (e, g)) in exp.sheets.iter().zip(got.sheets.iter()).enumerate() {
+        if e.name != g.name {
+            let key = if got.sheets.iter().any(|x| x.name == e.name) { "sheets/order".to_string() } else { format!("sheets/name{}", special_class(&e.name)) };
+            disc(&mut out, key, format!("sheet {}: model name {:?}, the file says {:?}", i, e.name, g.name));
+        }
+        if e.state != g.state {
+            disc(&mut out, format!("sheets/state:{}-becomes-{}", e.state, g.state), format!("sheet {} {:?}", i, e.name));
+        }
+        if !g.worksheet || !e.worksheet {
+            continue;
+        }
+        let mut per_key: BTreeMap<String, usize> = BTreeMap::new();
+        let mut local = Vec::new();
+        for (pos, ec) in &e.cells {
+            let at = format!("{:?}!{}", e.name, a1(pos.1, pos.0));
+            match g.cells.get(pos) {
+                None => disc(&mut local, format!("{}/missing", cell_feature(ec)), format!("{}: {:?} is not in the file", at, ec)),
+                Some(gc) => diff_cell(&at, ec, gc, &mut local),
+            }
+        }
+        for (pos, gc) in &g.cells {
+            if !e.cells.contains_key(pos) {
+                disc(&mut local, "cell/phantom", format!("{:?}!{}: the file has {:?}, the model has no such cell", e.name, a1(pos.1, pos.0), gc));
+            }
+        }
+        // hyperlinks
+        for (r, el) in &e.links {
+            let at = format!("{:?}!{}", e.name, r);
+            let cls = special_class(&el.target);
+            match g.links.get(r) {
+                None => disc(&mut local, format!("hyperlink{}/missing", cls), format!("{}: {:?} is not in the file", at, el)),
+                Some(gl) => {
+                    if el.external != gl.external {
+                        disc(&mut local, "hyperlink/kind", format!("{}: model {:?}, decoded {:?}", at, el, gl));
+                    } else if el.target != gl.target {
+                        let sibling = e.links.iter().any(|(r2, l2)| r2 != r && l2.target == gl.target && l2.external == gl.external);
+                        let mode = if sibling { "target-swapped".to_string() } else { format!("{}-differs", if el.external { "target" } else { "location" }) };
+                        disc(&mut local, format!("hyperlink{}/{}", cls, mode), format!("{}: model {:?}, decoded {:?}", at, el, gl));
+                    }
+                }
+            }
+        }
+        for (r, gl) in &g.links {
+            if !e.links.contains_key(r) {
+                disc(&mut local, "hyperlink/phantom", format!("{:?}!{}: the file has {:?}, the model has no hyperlink there", e.name, r, gl));
+            }
+        }
+        // merged ranges
+        for r in &e.merges {
+            if !g.merges.contains(r) {
+                disc(&mut local, "merge/missing", format!("{:?}: merged range {} is not in the file (file has {:?})", e.name, r, g.merges));
+            }
+        }
+        for r in &g.merges {
+            if !e.merges.contains(r) {
+                disc(&mut local, "merge/phantom", format!("{:?}: the file merges {}, the model does not", e.name, r));
+            }
+        }
+        // comments
+        for (r, (ea, et)) in &e.comments {
+            let at = format!("{:?}!{}", e.name, r);
+            match g.comments.get(r) {
+                None => disc(&mut local, "comment/missing", format!("{}: comment by {:?} is not in the file", at, ea)),
+                Some((ga, gt)) => {
+                    if ea != ga {
+                        let sibling = e.comments.values().any(|(a2, _)| a2 == ga);
+                        let cls = special_class(ea);
+                        let mode = if ea.contains("_x") && xstring_decode(ea) == *ga {
+                            "xstring-lookalike-decoded"
+                        } else if *ga == ea.replace("\r\n", "\n").replace('\r', "\n") {
+                            "cr-becomes-lf"
+                        } else if sibling {
+                            "shifted"
+                        } else {
+                            "differs"
+                        };
+                        disc(&mut local, format!("comment-author{}/{}", cls, mode), format!("{}: model author {:?}, decoded {:?}", at, ea, ga));
+                    }
+                    if et != gt {
+                        let cls = special_class(et);
+                        let mode = if et.contains("_x") && xstring_decode(et) == *gt {
+                            "xstring-lookalike-decoded"
+                        } else if *gt == et.replace("\r\n", "\n").replace('\r', "\n") {
+                            "cr-becomes-lf"
+                        } else {
+                            "differs"
+                        };
+                        disc(&mut local, format!("comment-text{}/{}", cls, mode), format!("{}: model text {:?}, decoded {:?}", at, truncate(et, 120), truncate(gt, 120)));
+                    }
+                }
+            }
+        }
+        for (r, gc) in &g.comments {
+            if !e.comments.contains_key(r) {
+                disc(&mut local, "comment/phantom", format!("{:?}!{}: the file has a comment {:?}, the model has none there", e.name, r, gc));
+            }
+        }
+        // tables
+        for (n, (er, ecols)) in &e.tables {
+            match g.tables.get(n) {
+                None => disc(&mut local, format!("table{}/missing", special_class(n)), format!("{:?}: table {:?} is not in the file (file has {:?})", e.name, n, g.tables.keys().collect::<Vec<_>>())),
+                Some((gr, gcols)) => {
+                    if er != gr {
+                        disc(&mut local, "table/ref", format!("{:?}: table {:?} model range {}, decoded {}", e.name, n, er, gr));
+                    }
+                    if ecols != gcols {
+                        // class of the first column name that differs
+                        let cls = ecols
+                            .iter()
+                            .enumerate()
+                            .find(|(j, c)| gcols.get(*j) != Some(*c))
+                            .map(|(_, c)| special_class(c))
+                            .unwrap_or(":count");
+                        disc(&mut local, format!("table-column{}/differs", cls), format!("{:?}: table {:?} model columns {:?}, decoded {:?}", e.name, n, ecols, gcols));
+                    }
+                }
+            }
+        }
+        for n in g.tables.keys() {
+            if !e.tables.contains_key(n) {
+                disc(&mut local, "table/phantom", format!("{:?}: the file has table {:?}, the model does not", e.name, n));
+            }
+        }
+        for d in local {
+            let n = per_key.entry(d.key.clone()).or_insert(0);
+            *n += 1;
+            if *n <= 3 {
+                out.push(d);
+            }
+        }
+    }
+    // defined names: multiset of (name, scope, canonical text)
+    let mut used = vec![false; got.names.len()];
+    for e in &exp.names {
+        let hit = got.names.iter().enumerate().position(|(i, g)| !used[i] && g.name == e.name && g.scope == e.scope);
+        match hit {
+            Some(i) => {
+                used[i] = true;
+                if got.names[i].text != e.text {
+                    disc(&mut out, "defined-name/text", format!("defined name {:?} scope {:?}: model text {:?}, decoded {:?}", e.name, e.scope, e.text, got.names[i].text));
+                }
+            }
+            None => {
+                let other_scope = got.names.iter().enumerate().position(|(i, g)| !used[i] && g.name == e.name);
+                match other_scope {
+                    Some(i) => {
+                        used[i] = true;
+                        disc(&mut out, "defined-name/scope", format!("defined name {:?}: model scope {:?}, decoded {:?}", e.name, e.scope, got.names[i].scope));
+                    }
+                    None => disc(&mut out, format!("defined-name{}/missing", special_class(&e.name)), format!("defined name {:?} scope {:?} is not in the file", e.name, e.scope)),
+                }
+            }
+        }
+    }
+    for (i, g) in got.names.iter().enumerate() {
+        if !used[i] {
+            disc(&mut out, "defined-name/phantom", format!("the file has defined name {:?} scope {:?} text {:?}, the model does not", g.name, g.scope, g.text));
+        }
+    }
+    out
+}
+
+// ---------------------------------------------------------------------------------------
+// oracle 1: validity
+
+/// Class of a part name: digits removed, well-known parts by a short name.
+pub fn part_class(part: &str) -> String {
+    let p: String = part.trim_start_matches('/').chars().filter(|c| !c.is_ascii_digit()).collect();
+    let known = [
+        ("xl/workbook.xml", "workbook"),
+        ("xl/_rels/workbook.xml.rels", "workbook-rels"),
+        ("xl/sharedStrings.xml", "sharedStrings"),
+        ("xl/styles.xml", "styles"),
+        ("[Content_Types].xml", "content-types"),
+        ("xl/worksheets/sheet.xml", "worksheet"),
+        ("xl/worksheets/_rels/sheet.xml.rels", "worksheet-rels"),
+        ("xl/comments.xml", "comments"),
+        ("xl/tables/table.xml", "table"),
+        ("xl/drawings/vmlDrawing.vml", "vml"),
+        ("xl/drawings/_rels/vmlDrawing.vml.rels", "vml-rels"),
+        ("xl/drawings/drawing.xml", "drawing"),
+        ("xl/drawings/_rels/drawing.xml.rels", "drawing-rels"),
+        ("xl/charts/chart.xml", "chart"),
+        ("xl/theme/theme.xml", "theme"),
+        ("docProps/app.xml", "docProps-app"),
+        ("docProps/core.xml", "docProps-core"),
+        ("docProps/custom.xml", "docProps-custom"),
+        ("_rels/.rels", "root-rels"),
+        ("xl/vbaProject.bin", "vbaProject"),
+    ];
+    for (k, v) in known {
+        if p == k {
+            return v.to_string();
+        }
+    }
+    if p.is_empty() {
+        "package".to_string()
+    } else {
+        p
+    }
+}
+
+fn wf_cause(detail: &str) -> &'static str {
+    let d = detail.to_lowercase();
+    if d.contains("invalid token") {
+        "invalid-token"
+    } else if d.contains("invalid character number") {
+        "invalid-char-ref"
+    } else if d.contains("mismatched tag") {
+        "mismatched-tag"
+    } else if d.contains("duplicate attribute") {
+        "duplicate-attribute"
+    } else if d.contains("undefined entity") {
+        "undefined-entity"
+    } else if d.contains("unbound prefix") {
+        "unbound-prefix"
+    } else if d.contains("junk after") {
+        "junk-after-document"
+    } else if d.contains("no element found") || d.contains("unclosed") {
+        "truncated"
+    } else {
+        "other"
+    }
+}
+
+pub fn validity_discs(viol: &[RuleViolation], out: &mut Vec<Disc>) {
+    let mut per_key: BTreeMap<String, usize> = BTreeMap::new();
+    for v in viol {
+        let mut key = format!("invalid/{}/{}", v.rule, part_class(&v.part));
+        if v.rule == "xml.not-well-formed" {
+            key = format!("{}/{}", key, wf_cause(&v.detail));
+        }
+        if v.rule == "ws.child-order" {
+            // which pair is out of order: "<a> after <b>"
+            let names: Vec<&str> = v.detail.split(|c| c == '<' || c == '>').filter(|s| !s.is_empty() && !s.contains(' ')).collect();
+            if names.len() >= 2 {
+                key = format!("{}/{}-after-{}", key, names[0], names[1]);
+            }
+        }
+        let n = per_key.entry(key.clone()).or_insert(0);
+        *n += 1;
+        if *n <= 2 {
+            disc(out, key, format!("{}: {} — {}", v.part, v.rule, v.detail));
+        }
+    }
+}
+
+/// `count` / `uniqueCount` attributes against the tables they describe.
+pub fn count_discs(d: &Decoded, out: &mut Vec<Disc>) {
+    let c = &d.styles.counts;
+    let actual: [(&str, u32); 8] = [
+        ("numFmts", c.num_fmts),
+        ("fonts", c.fonts),
+        ("fills", c.fills),
+        ("borders", c.borders),
+        ("cellStyleXfs", c.cell_style_xfs),
+        ("cellXfs", c.cell_xfs),
+        ("cellStyles", c.cell_styles),
+        ("dxfs", c.dxfs),
+    ];
+    for (name, n) in actual {
+        if let Some(Some(decl)) = c.declared.get(name) {
+            if *decl != n {
+                disc(out, format!("invalid/count/styles.{}", name), format!("styles.xml <{} count=\"{}\"> has {} children", name, decl, n));
+            }
+        }
+    }
+    let s = &d.shared_strings;
+    if s.part.is_some() {
+        if let Some(u) = s.unique_count {
+            if u != s.si {
+                disc(out, "invalid/count/sst.uniqueCount", format!("sharedStrings uniqueCount=\"{}\" with {} <si>", u, s.si));
+            }
+        }
+        if let Some(cn) = s.count {
+            let refs: usize = d.sheets.iter().map(|sh| sh.cells.iter().filter(|c| c.t.as_deref() == Some("s") && c.sst_index.is_some()).count()).sum();
+            if cn as usize != refs {
+                disc(out, "invalid/count/sst.count", format!("sharedStrings count=\"{}\", {} cells refer to a string item", cn, refs));
+            }
+        }
+    }
+}
+
+/// Generic `count` rule: an element of an XML part that carries a `count` attribute has that
+/// many child elements (mergeCells, tableParts, tableColumns, fonts, cellXfs, dxfs, authors ...).
+/// `sst` is left out (its `count` is the number of references, see `count_discs`), and so are
+/// the elements for which producer-written corpus originals break the rule (calibration,
+/// `COUNT_RULE_EXEMPT`).
+pub fn count_attr_mismatches(bytes: &[u8]) -> Vec<(String, String, u64, u64)> {
+    use quick_xml::events::Event;
+    let mut out = Vec::new();
+    let Ok(parts) = crate::props::c04::parts(bytes) else { return out };
+    for (name, data) in &parts {
+        if !name.ends_with(".xml") || name.starts_with("docProps/") || name.starts_with("customXml/") {
+            continue;
+        }
+        let mut reader = quick_xml::Reader::from_reader(data.as_slice());
+        let mut buf = Vec::new();
+        // (element, declared count, children seen)
+        let mut stack: Vec<(String, Option<u64>, u64)> = Vec::new();
+        let declared = |e: &quick_xml::events::BytesStart| -> Option<u64> {
+            for a in e.attributes().with_checks(false).flatten() {
+                if a.key.as_ref() == b"count" {
+                    return std::str::from_utf8(&a.value).ok().and_then(|v| v.parse::<u64>().ok());
+                }
+            }
+            None
+        };
+        loop {
+            match reader.read_event_into(&mut buf) {
+                Ok(Event::Start(ref e)) => {
+                    if let Some(top) = stack.last_mut() {
+                        top.2 += 1;
+                    }
+                    stack.push((String::from_utf8_lossy(e.name().as_ref()).to_string(), declared(e), 0));
+                }
+                Ok(Event::Empty(ref e)) => {
+                    if let Some(top) = stack.last_mut() {
+                        top.2 += 1;
+                    }
+                    if let Some(n) = declared(e) {
+                        if n != 0 {
+                            out.push((name.clone(), String::from_utf8_lossy(e.name().as_ref()).to_string(), n, 0));
+                        }
+                    }
+                }
+                Ok(Event::End(_)) => {
+                    if let Some((el, Some(n), seen)) = stack.pop() {
+                        if n != seen {
+                            out.push((name.clone(), el, n, seen));
+                        }
+                    }
+                }
+                Ok(Event::Eof) | Err(_) => break,
+                _ => {}
+            }
+            buf.clear();
+        }
+    }
+    out
+}
+
+/// Elements whose `count` does not mean "number of child elements" or for which producer
+/// originals of the corpus break the rule.
+pub const COUNT_RULE_EXEMPT: [&str; 1] = ["sst"];
+
+pub fn count_attr_discs(bytes: &[u8], out: &mut Vec<Disc>) {
+    for (part, el, n, seen) in count_attr_mismatches(bytes) {
+        if COUNT_RULE_EXEMPT.contains(&el.as_str()) {
+            continue;
+        }
+        disc(out, format!("invalid/count/{}.{}", part_class(&part), el), format!("{}: <{} count=\"{}\"> has {} child elements", part, el, n, seen));
+    }
+}
+
+// ---------------------------------------------------------------------------------------
+// known keys, verdict
+
+fn known_keys() -> &'static HashSet<String> {
+    static K: OnceLock<HashSet<String>> = OnceLock::new();
+    K.get_or_init(|| load_known().into_iter().filter(|k| k.property == "C02" && k.status == "open").map(|k| k.key).collect())
+}
+
+/// One verdict from a list of discrepancies: a key that is not an open known finding wins,
+/// so a tolerated discrepancy can never hide another one in the same case.
+pub fn verdict_of(discs: &[Disc]) -> Verdict {
+    if discs.is_empty() {
+        return Verdict::Pass;
+    }
+    let known = known_keys();
+    let pick = discs.iter().find(|d| !known.contains(&d.key)).unwrap_or(&discs[0]);
+    let keys: BTreeSet<&str> = discs.iter().map(|d| d.key.as_str()).collect();
+    Verdict::fail(pick.key.clone(), format!("{} [all keys of this case: {}]", pick.detail, keys.into_iter().collect::<Vec<_>>().join(", ")))
+}
+
+/// All discrepancies of one saved file against a model.
+pub fn judge_bytes(bytes: &[u8], model: &Model, macros: Option<Option<&[u8]>>) -> (Vec<Disc>, Option<Decoded>) {
+    let mut out = Vec::new();
+    let (mut viol, dec) = pyworker::both(bytes);
+    // when a part is not even well-formed nothing that is derived from its content can be
+    // judged: report the cause only, not its consequences
+    let broken = viol.iter().any(|v| v.rule == "xml.not-well-formed" || v.rule.starts_with("zip."));
+    if broken {
+        viol.retain(|v| v.rule == "xml.not-well-formed" || v.rule.starts_with("zip."));
+    }
+    validity_discs(&viol, &mut out);
+    let dec = match dec {
+        Ok(d) => d,
+        Err(e) => {
+            if out.is_empty() {
+                disc(&mut out, "invalid/undecodable", e);
+            }
+            return (out, None);
+        }
+    };
+    if !broken {
+        count_discs(&dec, &mut out);
+        count_attr_discs(bytes, &mut out);
+        out.extend(diff(model, &model_of_decoded(&dec)));
+        if let Some(m) = macros {
+            let has = dec.parts.iter().any(|p| p == "xl/vbaProject.bin");
+            match (m, has) {
+                (None, true) => disc(&mut out, "macro/phantom", "the file has xl/vbaProject.bin, the workbook has no macro payload"),
+                (Some(_), false) => disc(&mut out, "macro/payload-missing", "the workbook has a macro payload, the file has no xl/vbaProject.bin"),
+                (Some(p), true) => match crate::props::c04::parts(bytes) {
+                    Ok(parts) => {
+                        if parts.get("xl/vbaProject.bin").map(|b| b.as_slice()) != Some(p) {
+                            disc(&mut out, "macro/payload-differs", format!("xl/vbaProject.bin has {:?} bytes, the payload {}", parts.get("xl/vbaProject.bin").map(|b| b.len()), p.len()));
+                        }
+                    }
+                    Err(e) => disc(&mut out, "invalid/zip.read-by-second-reader", e),
+                },
+                (None, false) => {}
+            }
+        }
+    }
+    (out, Some(dec))
+}
+
+// ---------------------------------------------------------------------------------------
+// generated leg: check
+
+fn rel_bearing(case: &Case) -> (usize, usize, usize, usize) {
+    let mut ext = 0;
+    let mut com = 0;
+    let mut tab = 0;
+    let mut prn = 0;
+    for &i in &case.annot.kept() {
+        let s = &case.annot.sheets[i];
+        ext += s.links.iter().filter(|l| !l.internal).count();
+        com += s.comments.len();
+        tab += case.extra_of(i).tables.len();
+        prn += s.page.object_data.is_some() as usize;
+    }
+    (ext, com, tab, prn)
+}
+
+fn check(case: &Case, obs: &mut Obs) -> Verdict {
+    let kept = case.annot.kept();
+    let (ext, com, tab, prn) = rel_bearing(case);
+    let styled = !case.styles.is_empty() && kept.iter().any(|i| !case.extra_of(*i).styled.is_empty());
+    obs.nontrivial(kept.len() >= 2 || ext + com + tab + prn > 0 || case.macros.is_some() || styled);
+    obs.class(if case.light { "writer:light" } else { "writer:standard" });
+    obs.class(format!("sheets-saved:{}", kept.len()));
+    if kept.len() < case.annot.sheets.len() {
+        obs.class("sheet-removed-before-save");
+    }
+    if kept.iter().any(|i| case.extra.get(*i).map_or(false, |e| e.rename.is_some())) {
+        obs.class("sheet-renamed-before-save");
+    }
+    if case.macros.is_some() {
+        obs.class("macro-payload");
+    }
+    if styled {
+        obs.class("styled");
+    }
+    let sheets_with_rels = kept
+        .iter()
+        .filter(|i| {
+            let s = &case.annot.sheets[**i];
+            s.links.iter().any(|l| !l.internal) || !s.comments.is_empty() || !case.extra_of(**i).tables.is_empty()
+        })
+        .count();
+    obs.class(format!("sheets-with-rels:{}", sheets_with_rels.min(3)));
+    let mix = kept
+        .iter()
+        .filter(|i| {
+            let s = &case.annot.sheets[**i];
+            s.links.iter().any(|l| !l.internal) && !s.comments.is_empty() && !case.extra_of(**i).tables.is_empty()
+        })
+        .count();
+    if mix >= 1 {
+        obs.class("sheet-with-extlink+comment+table");
+    }
+    if mix >= 2 {
+        obs.class("two-sheets-with-extlink+comment+table");
+    }
+    for &i in &kept {
+        for c in case.extra_of(i).cells.iter() {
+            obs.class(format!("cell:{}", cell_feature(&mcell_of_spec(c))));
+        }
+    }
+
+    for x in &case.steered {
+        obs.excluded(format!("steered:{}", x));
+    }
+    let book = match guard(|| build(case)) {
+        Ok(b) => b,
+        Err(p) => return Verdict::fail(format!("build/panic:{}", p.site()), p.short()),
+    };
+    let model = model_of_spec(case, &book);
+    // the spec must agree with the API before saving, otherwise the case says nothing
+    let pre = diff(&model, &model_of_book(&book));
+    if let Some(d) = pre.first() {
+        return Verdict::Discard(format!("pre-save model mismatch: {} {}", d.key, d.detail));
+    }
+    let bytes = match guard(|| save(&book, case.light)) {
+        Ok(Ok(b)) => b,
+        Ok(Err(e)) => return Verdict::fail("save/error", e),
+        Err(p) => return Verdict::fail(format!("save/panic:{}", p.site()), p.short()),
+    };
+    let (discs, _) = judge_bytes(&bytes, &model, Some(case.macros.as_deref()));
+    verdict_of(&discs)
+}
+
+// ---------------------------------------------------------------------------------------
+// strategies
+
+/// What the clean strata leave out (input features of open known findings); the dirty
+/// stratum puts them in.
+#[derive(Debug, Clone, Copy, PartialEq)]
+pub struct Steer {
+    /// C0 controls / U+FFFE / U+FFFF in texts
+    pub c0: bool,
+    /// `_xHHHH_` look-alikes in texts
+    pub xlook: bool,
+    /// carriage returns in texts
+    pub cr: bool,
+    /// edge blanks in comment texts / authors, formula string results
+    pub edge: bool,
+    /// line breaks / tabs in table column names (attribute values)
+    pub attr_ws: bool,
+}
+
+impl Steer {
+    pub const NONE: Steer = Steer { c0: true, xlook: true, cr: true, edge: true, attr_ws: true };
+}
+
+fn open(pred: impl Fn(&str) -> bool) -> bool {
+    known_keys().iter().any(|k| pred(k))
+}
+
+/// Which features have to be kept out of the clean strata: exactly those of the open entries.
+pub fn steer_clean() -> Steer {
+    Steer {
+        c0: !open(|k| k.starts_with("invalid/xml.not-well-formed/")),
+        xlook: !open(|k| k.contains("xstring-lookalike")),
+        cr: !open(|k| k.contains("cr-becomes-lf")),
+        edge: !open(|k| k.contains("edge-blank-without-xml-space")),
+        attr_ws: !open(|k| k.starts_with("table-column:linebreak")),
+    }
+}
+
+fn is_c0(c: char) -> bool {
+    ((c as u32) < 0x20 && !matches!(c, '\t' | '\n' | '\r')) || c == '\u{fffe}' || c == '\u{ffff}'
+}
+
+fn has_xlook(s: &str) -> bool {
+    // _xHHHH_
+    let b: Vec<char> = s.chars().collect();
+    if b.len() < 7 {
+        return false;
+    }
+    for i in 0..=b.len() - 7 {
+        if b[i] == '_' && b[i + 1] == 'x' && b[i + 6] == '_' && b[i + 2..i + 6].iter().all(|c| c.is_ascii_hexdigit()) {
+            return true;
+        }
+    }
+    false
+}
+
+/// Remove from a text what the steering excludes; returns the labels of what was removed.
+fn clean_text(s: &mut String, st: Steer, edge_matters: bool, ex: &mut Vec<&'static str>) {
+    if !st.c0 && s.chars().any(is_c0) {
+        *s = s.chars().filter(|c| !is_c0(*c)).collect();
+        ex.push("c0-control");
+    }
+    if !st.cr && s.contains('\r') {
+        *s = s.replace('\r', "");
+        ex.push("cr");
+    }
+    if !st.xlook && has_xlook(s) {
+        *s = s.replace("_x", "_y");
+        ex.push("xstring-lookalike");
+    }
+    if !st.edge && edge_matters && has_xml_edge_blank(s) {
+        *s = s.trim_matches(is_edge_blank).to_string();
+        ex.push("edge-blank");
+    }
+}
+
+/// Apply the steering to a whole case; what was removed is reported through `Case`-external
+/// counters (the check recomputes nothing from it, the labels are only for the evidence).
+fn steer_case(mut case: Case, st: Steer) -> Case {
+    let mut ex: Vec<&'static str> = Vec::new();
+    if !st.attr_ws {
+        for e in case.extra.iter_mut() {
+            for t in e.tables.iter_mut() {
+                for c in t.columns.iter_mut() {
+                    if c.chars().any(|x| matches!(x, '\n' | '\t' | '\r')) {
+                        *c = c.replace(['\n', '\t', '\r'], "-");
+                        ex.push("table-column-linebreak");
+                    }
+                }
+            }
+        }
+    }
+    for e in case.extra.iter_mut() {
+        for c in e.cells.iter_mut() {
+            let is_formula = c.formula.is_some();
+            match &mut c.value {
+                ValueSpec::Text(s) => clean_text(s, st, is_formula, &mut ex),
+                ValueSpec::Rich(runs) => {
+                    for r in runs.iter_mut() {
+                        clean_text(&mut r.text, st, false, &mut ex);
+                        if r.text.is_empty() {
+                            r.text = "r".into();
+                        }
+                    }
+                }
+                _ => {}
+            }
+        }
+        for t in e.tables.iter_mut() {
+            for c in t.columns.iter_mut() {
+                clean_text(c, st, false, &mut ex);
+            }
+            dedupe_columns(&mut t.columns);
+        }
+    }
+    for s in case.annot.sheets.iter_mut() {
+        for c in s.comments.iter_mut() {
+            clean_text(&mut c.author, st, true, &mut ex);
+            for r in c.runs.iter_mut() {
+                clean_text(r, st, true, &mut ex);
+                if r.is_empty() {
+                    *r = "c".into();
+                }
+            }
+        }
+    }
+    case.steered = ex.into_iter().map(|s| s.to_string()).collect();
+    case
+}
+
+fn dedupe_columns(cols: &mut [String]) {
+    let mut seen: BTreeSet<String> = BTreeSet::new();
+    for (j, c) in cols.iter_mut().enumerate() {
+        if c.is_empty() || !seen.insert(c.to_lowercase()) {
+            *c = format!("Column{}", j + 1);
+            let mut k = 0;
+            while !seen.insert(c.to_lowercase()) {
+                k += 1;
+                *c = format!("Column{}_{}", j + 1, k);
+            }
+        }
+    }
+}
+
+fn bare_sheet(state: u8, removed: bool) -> AnnotSheet {
+    AnnotSheet {
+        name: String::new(),
+        state,
+        removed_before_save: removed,
+        merges: Vec::new(),
+        names: Vec::new(),
+        links: Vec::new(),
+        comments: Vec::new(),
+        validations: Vec::new(),
+        cond_formats: Vec::new(),
+        auto_filter: None,
+        tab_color: None,
+        view: None,
+        ws_active_cell: None,
+        page: PageSpec::default(),
+        header: None,
+        footer: None,
+        protection: None,
+    }
+}
+
+/// Sheets without annotations (1..4, states, some removed before saving).
+fn bare_wb() -> BoxedStrategy<AnnotWb> {
+    (sheet_names(6, 6), prop::collection::vec((0u8..4, prop::bool::weighted(0.12)), 1..=4), any::<u16>())
+        .prop_map(|(names, sheets, active_raw)| {
+            let wb = AnnotWb {
+                sheets: sheets.into_iter().map(|(s, r)| bare_sheet(s, r)).collect(),
+                active_tab: 0,
+                set_active: false,
+                wb_names: Vec::new(),
+                wb_protection: None,
+            };
+            annot::normalise(wb, names, active_raw)
+        })
+        .boxed()
+}
+
+/// 0..=max tables in disjoint slots right of / below the small-position area.
+fn table_specs(max: usize) -> BoxedStrategy<Vec<TableSpec>> {
+    let col_name_s = prop_oneof![
+        4 => "[A-Za-z][A-Za-z0-9 ]{0,8}".prop_map(|s| s.trim().to_string()),
+        3 => nonempty_text(10),
+        1 => prop::sample::select(vec!["A&B", "<c>", "\"q\"", "it's", "日本", "Total", "total", "x\ny", "a\tb", " pad ", "_x0041_", "100%", "Column1"]).prop_map(|s| s.to_string()),
+    ];
+    let one = (0u32..6, 0u32..3, 1u32..=5, 1u32..=5, prop::collection::vec(col_name_s, 5), any::<bool>(), prop::bool::weighted(0.7), "[A-Za-z_][A-Za-z0-9_.]{0,8}");
+    prop::collection::vec(one, 0..=max)
+        .prop_map(|v| {
+            let mut used = BTreeSet::new();
+            let mut out = Vec::new();
+            for (sc, sr, w, h, cols, style_info, header_cells, name) in v {
+                if !used.insert((sc, sr)) {
+                    continue;
+                }
+                let c1 = 30 + sc * 6;
+                let r1 = 200 + sr * 8;
+                let mut columns: Vec<String> = cols.into_iter().take(w as usize).collect();
+                dedupe_columns(&mut columns);
+                out.push(TableSpec {
+                    name,
+                    rect: RectSpec { c1, r1, c2: c1 + w - 1, r2: r1 + h },
+                    columns,
+                    style_info,
+                    header_cells,
+                });
+            }
+            out
+        })
+        .boxed()
+}
+
+fn style_target() -> BoxedStrategy<StyleTarget> {
+    prop_oneof![
+        5 => (col_pos(), row_pos()).prop_map(|(c, r)| StyleTarget::Cell(c, r)),
+        1 => row_pos().prop_map(StyleTarget::Row),
+        1 => col_pos().prop_map(StyleTarget::Col),
+    ]
+    .boxed()
+}
+
+#[derive(Debug, Clone, Copy)]
+struct Plan {
+    /// 0 bare sheets, 1 full annotations, 2 hyperlink/comment heavy
+    annot: u8,
+    max_cells: usize,
+    max_text: usize,
+    grammar_formulas: bool,
+    styles: bool,
+    max_tables: usize,
+    macros: bool,
+    renames: bool,
+    dirty: bool,
+}
+
+fn cell_spec2(max_text: usize, grammar: bool) -> BoxedStrategy<CellSpec> {
+    if !grammar {
+        return cell_spec(max_text);
+    }
+    let formula = prop_oneof![2 => simple_formula(), 3 => crate::gen::formula::formula_text()];
+    (col_pos(), row_pos(), value_spec(max_text), prop::option::weighted(0.3, formula))
+        .prop_map(|(col, row, value, formula)| {
+            let formula = if matches!(value, ValueSpec::Rich(_)) { None } else { formula };
+            CellSpec { col, row, value, formula }
+        })
+        .boxed()
+}
+
+fn sheet_extra(p: Plan) -> BoxedStrategy<SheetExtra> {
+    let cells = prop::collection::vec(cell_spec2(p.max_text, p.grammar_formulas), 0..=p.max_cells);
+    let styled = if p.styles { prop::collection::vec((style_target(), any::<u16>()), 0..=8).boxed() } else { Just(Vec::new()).boxed() };
+    let tables = if p.max_tables > 0 { table_specs(p.max_tables) } else { Just(Vec::new()).boxed() };
+    let rename = if p.renames { prop::option::weighted(0.15, sheet_name()).boxed() } else { Just(None).boxed() };
+    (cells, styled, tables, rename)
+        .prop_map(|(cells, styled, tables, rename)| SheetExtra { cells, styled, tables, rename })
+        .boxed()
+}
+
+/// Make a generated case legal: table names unique workbook-wide, rename targets distinct
+/// from every other sheet name, column names unique per table.
+fn fixup(mut case: Case) -> Case {
+    let n = case.annot.sheets.len();
+    case.extra.truncate(n);
+    let mut names: BTreeSet<String> = case.annot.sheets.iter().map(|s| s.name.to_lowercase()).collect();
+    for (i, e) in case.extra.iter_mut().enumerate() {
+        if let Some(r) = e.rename.as_mut() {
+            if !names.insert(r.to_lowercase()) {
+                let base: String = r.chars().take(24).collect();
+                *r = sanitize_sheet_name(&format!("{}_r{}", base, i));
+                if !names.insert(r.to_lowercase()) {
+                    e.rename = None;
+                }
+            }
+        }
+        for (k, t) in e.tables.iter_mut().enumerate() {
+            t.name = format!("{}_{}_{}", t.name, i, k);
+            dedupe_columns(&mut t.columns);
+        }
+    }
+    case
+}
+
+fn case_strategy(p: Plan, tier: Tier) -> BoxedStrategy<Case> {
+    let feat = if p.dirty { Feat::ALL } else { Feat::CLEAN };
+    let annot = match p.annot {
+        0 => bare_wb(),
+        1 => annot::annot_wb(tier, feat),
+        _ => annot::links_wb(tier),
+    };
+    let styles = if p.styles { style::style_set(3, 3, 10, false) } else { Just(Vec::new()).boxed() };
+    let macros = if p.macros {
+        prop::option::weighted(0.35, prop_oneof![3 => prop::collection::vec(any::<u8>(), 1..200), 1 => Just(b"\xD0\xCF\x11\xE0\xA1\xB1\x1A\xE1 not really a compound file".to_vec())]).boxed()
+    } else {
+        Just(None).boxed()
+    };
+    let st = if p.dirty { Steer::NONE } else { steer_clean() };
+    (annot, prop::collection::vec(sheet_extra(p), 6), styles, macros, any::<bool>())
+        .prop_map(move |(annot, extra, styles, macros, light)| steer_case(fixup(Case { annot, extra, styles, macros, light, steered: Vec::new() }), st))
+        .boxed()
+}
+
+fn strat_cells(t: Tier) -> BoxedStrategy<Case> {
+    let (cells, text) = t.pick((30, 30), (60, 200));
+    case_strategy(
+        Plan {
+            annot: 0,
+            max_cells: cells,
+            max_text: text,
+            grammar_formulas: true,
+            styles: true,
+            max_tables: 0,
+            macros: false,
+            renames: true,
+            dirty: false,
+        },
+        t,
+    )
+}
+
+fn strat_annot(t: Tier) -> BoxedStrategy<Case> {
+    case_strategy(
+        Plan {
+            annot: 1,
+            max_cells: 4,
+            max_text: 12,
+            grammar_formulas: false,
+            styles: false,
+            max_tables: 0,
+            macros: false,
+            renames: false,
+            dirty: false,
+        },
+        t,
+    )
+}
+
+fn strat_rels(t: Tier) -> BoxedStrategy<Case> {
+    case_strategy(
+        Plan {
+            annot: 2,
+            max_cells: 6,
+            max_text: 12,
+            grammar_formulas: false,
+            styles: false,
+            max_tables: 3,
+            macros: true,
+            renames: false,
+            dirty: false,
+        },
+        t,
+    )
+}
+
+fn strat_combined(t: Tier) -> BoxedStrategy<Case> {
+    let (cells, text) = t.pick((12, 20), (30, 80));
+    case_strategy(
+        Plan {
+            annot: 1,
+            max_cells: cells,
+            max_text: text,
+            grammar_formulas: true,
+            styles: true,
+            max_tables: 2,
+            macros: true,
+            renames: true,
+            dirty: false,
+        },
+        t,
+    )
+}
+
+fn dirty_text() -> BoxedStrategy<String> {
+    prop_oneof![
+        3 => c0_text(),
+        2 => cr_text(),
+        3 => prop::sample::select(vec!["_x0041_", "a_x000D_b", "_x005F_", "x_x0009_", "_x00e9_ _xHHHH_"]).prop_map(|s| s.to_string()),
+        2 => (edge_blank(), "[a-z]{1,4}", edge_blank()).prop_map(|(a, b, c)| format!("{}{}{}", a, b, c)),
+    ]
+    .boxed()
+}
+
+fn strat_dirty(t: Tier) -> BoxedStrategy<Case> {
+    let dirty_formula = prop::sample::select(vec!["\"a\rb\"&A1", "\"a\r\nb\"", "\" lead\"&\"trail \"", "\"_x0041_\"", "A1+\n B2", "\"tab\there\""]).prop_map(|s| s.to_string());
+    let dirty_cell = (5u32..9, 1u32..9, 0u8..3, dirty_text(), dirty_text());
+    (
+        strat_dirty_base(t),
+        prop::collection::vec((dirty_text(), prop::option::weighted(0.3, dirty_text())), 0..6),
+        prop::collection::vec((1u32..4, 1u32..6, dirty_formula), 0..3),
+        prop::collection::vec(dirty_cell, 0..6),
+    )
+        .prop_map(|(mut case, texts, formulas, cells)| {
+            if let Some(e) = case.extra.first_mut() {
+                for (col, row, f) in formulas {
+                    e.cells.push(CellSpec { col, row, value: ValueSpec::Number(Num(1.0)), formula: Some(f) });
+                }
+                // the dirty alphabet in all three encodings of a text: shared string, rich
+                // runs, cached string result of a formula
+                for (col, row, kind, a, b) in cells {
+                    let (value, formula) = match kind {
+                        0 => (ValueSpec::Text(a), None),
+                        1 => (
+                            ValueSpec::Rich(vec![
+                                RunSpec { text: if a.is_empty() { "r".into() } else { a }, bold: true, italic: false, size: None, font_name: None },
+                                RunSpec { text: if b.is_empty() { "s".into() } else { b }, bold: false, italic: false, size: None, font_name: None },
+                            ]),
+                            None,
+                        ),
+                        _ => (ValueSpec::Text(a), Some("A1&B1".to_string())),
+                    };
+                    e.cells.push(CellSpec { col, row, value, formula });
+                }
+            }
+            // comments of the case get texts (and some authors) from the dirty alphabet
+            let mut it = texts.into_iter();
+            'outer: for s in case.annot.sheets.iter_mut() {
+                for c in s.comments.iter_mut() {
+                    let Some((text, author)) = it.next() else { break 'outer };
+                    c.runs = vec![text];
+                    if let Some(a) = author {
+                        c.author = a;
+                    }
+                }
+            }
+            case
+        })
+        .boxed()
+}
+
+fn strat_dirty_base(t: Tier) -> BoxedStrategy<Case> {
+    let _ = t;
+    case_strategy(
+        Plan {
+            annot: 2,
+            max_cells: 10,
+            max_text: 16,
+            grammar_formulas: false,
+            styles: false,
+            max_tables: 1,
+            macros: false,
+            renames: false,
+            dirty: true,
+        },
+        t,
+    )
+}
+
+fn subs() -> Vec<Box<dyn DynSub>> {
+    vec![
+        Box::new(Sub { name: "cells", strategy: strat_cells, cases: (150, 4000), check, max_shrink_iters: 1500 }),
+        Box::new(Sub { name: "annot", strategy: strat_annot, cases: (120, 2000), check, max_shrink_iters: 1500 }),
+        Box::new(Sub { name: "rels", strategy: strat_rels, cases: (250, 4000), check, max_shrink_iters: 1500 }),
+        Box::new(Sub { name: "combined", strategy: strat_combined, cases: (150, 2500), check, max_shrink_iters: 1500 }),
+        Box::new(Sub { name: "dirty", strategy: strat_dirty, cases: (40, 600), check, max_shrink_iters: 1500 }),
+    ]
+}
+
+// ---------------------------------------------------------------------------------------
+// corpus leg
+
+#[derive(Debug, Clone, Serialize, Deserialize)]
+pub struct CorpusCase {
+    pub file: String,
+    pub light: bool,
+    /// after loading, every worksheet gets an external and an internal hyperlink, a comment
+    /// and a table through the public API (exercises the numbering of relationships next to
+    /// the drawings, images, charts, OLE objects and printer settings the file already has)
+    #[serde(default)]
+    pub edit: bool,
+    /// replay only the discrepancies with this key (witness of one finding)
+    #[serde(default)]
+    pub key: Option<String>,
+}
+
+pub struct CorpusResult {
+    pub discs: Vec<Disc>,
+    pub nontrivial: bool,
+    pub reader_differs: usize,
+    pub sheets: usize,
+}
+
+fn edit_book(book: &mut Spreadsheet, odec: &Decoded) {
+    for (i, ws) in book.get_sheet_collection_mut().iter_mut().enumerate() {
+        if odec.sheets.get(i).map_or(true, |s| s.kind != "worksheet") {
+            continue;
+        }
+        ws.get_cell_mut((50u32, 500u32)).get_hyperlink_mut().set_url(format!("https://example.com/c02?sheet={}&x=<y>", i));
+        ws.get_cell_mut((51u32, 500u32)).get_hyperlink_mut().set_url("A1").set_location(true);
+        ws.get_cell_mut((49u32, 500u32)).get_hyperlink_mut().set_url(format!("https://example.org/{}/first", i));
+        let mut co = umya_spreadsheet::Comment::default();
+        co.new_comment((52u32, 500u32));
+        co.set_author("C02 editor");
+        co.set_text_string("added by the check");
+        ws.add_comments(co);
+        let mut t = Table::new(&format!("C02AddedTable{}", i), ((60u32, 600u32), (62u32, 603u32)));
+        for c in ["alpha", "beta & gamma", "delta"] {
+            t.add_column(TableColumn::new(c));
+        }
+        ws.add_table(t);
+    }
+}
+
+pub fn check_corpus_file(file: &str, light: bool, edit: bool) -> Result<CorpusResult, String> {
+    let path = format!("{}/{}", crate::props::c03::corpus_dir(), file);
+    let bytes = std::fs::read(&path).map_err(|e| format!("cannot read {}: {}", path, e))?;
+    let (oviol, odec) = pyworker::both_path(&path);
+    let odec = odec.map_err(|e| format!("original not decodable: {}", e))?;
+    if !oviol.is_empty() {
+        return Err(format!("validator rejects the ORIGINAL: {:?}", oviol.iter().map(|v| &v.rule).collect::<Vec<_>>()));
+    }
+    let mut discs = Vec::new();
+    let mut book = match guard(|| load(&bytes)) {
+        Err(p) => return Err(format!("load panics (C03/C11): {}", p.short())),
+        Ok(Err(e)) => return Err(format!("load error: {}", e)),
+        Ok(Ok(b)) => b,
+    };
+    let reader_differs = diff(&model_of_decoded(&odec), &model_of_book(&book)).len();
+    if edit {
+        if let Err(p) = guard(|| edit_book(&mut book, &odec)) {
+            return Ok(CorpusResult {
+                discs: vec![Disc { key: format!("edit/panic:{}", p.site()), detail: p.short() }],
+                nontrivial: true,
+                reader_differs,
+                sheets: odec.sheets.len(),
+            });
+        }
+    }
+    let model = match guard(|| model_of_book(&book)) {
+        Ok(m) => m,
+        Err(p) => return Err(format!("getter panics: {}", p.short())),
+    };
+    // calibration: a count rule that fires on the producer's original is not applied
+    let mut ocount = Vec::new();
+    count_discs(&odec, &mut ocount);
+    count_attr_discs(&bytes, &mut ocount);
+    if std::env::var("VERIF_C02_DUMP").is_ok() {
+        for d in &ocount {
+            eprintln!("CALIBRATE original {} | {} | {}", file, d.key, d.detail);
+        }
+    }
+    let ocount: BTreeSet<String> = ocount.into_iter().map(|d| d.key).collect();
+    let saved = match guard(|| save(&book, light)) {
+        Ok(Ok(b)) => b,
+        Ok(Err(e)) => {
+            disc(&mut discs, "save/error", e);
+            Vec::new()
+        }
+        Err(p) => {
+            disc(&mut discs, format!("save/panic:{}", p.site()), p.short());
+            Vec::new()
+        }
+    };
+    let mut nontrivial = odec.sheets.len() >= 2;
+    if !saved.is_empty() {
+        let macros = book.get_macros_code();
+        let (d, dec) = judge_bytes(&saved, &model, Some(macros));
+        discs.extend(d.into_iter().filter(|d| !ocount.contains(&d.key)));
+        if let Some(dec) = dec {
+            nontrivial |= dec.sheets.len() >= 2
+                || dec.sheets.iter().any(|s| s.hyperlinks.iter().any(|h| h.rid.is_some()) || !s.comments.is_empty() || !s.tables.is_empty())
+                || dec.styles.counts.cell_xfs > 1
+                || dec.parts.iter().any(|p| p.contains("/drawings/") || p.contains("/media/") || p.contains("vbaProject"));
+        }
+    }
+    Ok(CorpusResult {
+        discs,
+        nontrivial,
+        reader_differs,
+        sheets: odec.sheets.len(),
+    })
+}
+
+fn extra(ctx: &Ctx) {
+    if !pyworker::ping() {
+        eprintln!("HARNESS-ERROR: python worker does not answer");
+        std::process::exit(2);
+    }
+    let files = crate::props::c04::corpus_files();
+    let mut jobs: Vec<(String, bool, bool)> = Vec::new();
+    for f in &files {
+        let heavy = crate::props::c04::HEAVY.contains(&f.as_str());
+        if !(heavy && ctx.tier == Tier::Quick) {
+            jobs.push((f.clone(), true, false));
+            jobs.push((f.clone(), false, true));
+            jobs.push((f.clone(), true, true));
+        }
+    }
+    // the heavy files first (they decide the wall time), then the rest
+    let mut first: Vec<(String, bool, bool)> = files.iter().map(|f| (f.clone(), false, false)).collect();
+    first.sort_by_key(|j| !crate::props::c04::HEAVY.contains(&j.0.as_str()));
+    first.extend(jobs);
+    let jobs = first;
+    let results: Vec<((String, bool, bool), Result<CorpusResult, String>)> = jobs.par_iter().map(|j| (j.clone(), check_corpus_file(&j.0, j.1, j.2))).collect();
+    let mut skipped = Vec::new();
+    for ((file, light, edit), r) in results {
+        match r {
+            Err(why) => {
+                skipped.push(json!({"file": file, "light": light, "edit": edit, "why": why}));
+                ctx.add_class("corpus/skipped", 1);
+            }
+            Ok(res) => {
+                ctx.count_case(fnv(format!("{}|{}|{}", file, light, edit).as_bytes()), res.nontrivial);
+                ctx.add_class(if edit { "corpus/edited-x-writers" } else { "corpus/files-x-writers" }, 1);
+                if res.reader_differs > 0 && !light && !edit {
+                    ctx.add_class("corpus/reader-differs-from-original(items)", res.reader_differs as u64);
+                    ctx.add_excluded("corpus/reader-differs-from-original (C03)", res.reader_differs as u64);
+                }
+                if res.nontrivial {
+                    ctx.add_sample(json!({"sub": "corpus", "case": {"file": file, "light": light, "edit": edit}, "sheets": res.sheets}));
+                }
+                if std::env::var("VERIF_C02_DUMP").is_ok() {
+                    for d in &res.discs {
+                        eprintln!("DUMP {} light={} edit={} | {} | {}", file, light, edit, d.key, truncate(&d.detail, 300));
+                    }
+                }
+                let mut seen: BTreeSet<String> = BTreeSet::new();
+                for d in res.discs {
+                    if seen.insert(d.key.clone()) {
+                        ctx.judge("corpus", &CorpusCase { file: file.clone(), light, edit, key: Some(d.key.clone()) }, Verdict::fail(d.key.clone(), d.detail.clone()));
+                    }
+                }
+            }
+        }
+    }
+    ctx.set_extra("corpus_skipped", Value::Array(skipped));
+}
+
+fn replay_extra(_ctx: &Ctx, sub: &str, case: &Value) -> Option<Verdict> {
+    match sub {
+        "corpus" => {
+            let c: CorpusCase = serde_json::from_value(case.clone()).ok()?;
+            match check_corpus_file(&c.file, c.light, c.edit) {
+                Err(why) => Some(Verdict::Discard(why)),
+                Ok(res) => {
+                    let discs: Vec<Disc> = res.discs.into_iter().filter(|d| c.key.as_ref().map_or(true, |k| &d.key == k)).collect();
+                    Some(verdict_of(&discs))
+                }
+            }
+        }
+        _ => None,
     }
 }
